@@ -32,6 +32,8 @@ namespace
 enum class test_enum { test1, test2, test3, fcppt_maximum = test3 };
 // names that are prefixes of each other, a one-character name, names differing in the last character only
 enum class colour { r, rg, rgb, rgx, x, fcppt_maximum = x };
+// an enumerator whose documented name is the EMPTY string ("no suffix")
+enum class suffix { none, k, m, fcppt_maximum = m };
 }
 
 namespace fcppt::enum_
@@ -46,6 +48,20 @@ struct to_string_impl<test_enum>
       FCPPT_ENUM_TO_STRING_CASE(test_enum, test1);
       FCPPT_ENUM_TO_STRING_CASE(test_enum, test2);
       FCPPT_ENUM_TO_STRING_CASE(test_enum, test3);
+    }
+    FCPPT_ASSERT_UNREACHABLE;
+  }
+};
+template <>
+struct to_string_impl<suffix>
+{
+  static std::string_view get(suffix const _val)
+  {
+    switch (_val)
+    {
+    case suffix::none: return std::string_view{""};
+    case suffix::k: return std::string_view{"k"};
+    case suffix::m: return std::string_view{"m"};
     }
     FCPPT_ASSERT_UNREACHABLE;
   }
@@ -72,6 +88,7 @@ namespace
 {
 // the documented names, enumerator value = index
 template <typename E> struct names;
+template <> struct names<suffix> { static constexpr char const *v[] = {"", "k", "m"}; static constexpr unsigned n = 3; };
 template <> struct names<test_enum> { static constexpr char const *v[] = {"test1", "test2", "test3"}; static constexpr unsigned n = 3; };
 template <> struct names<colour> { static constexpr char const *v[] = {"r", "rg", "rgb", "rgx", "x"}; static constexpr unsigned n = 5; };
 template <> struct names<fcppt::log::level> { static constexpr char const *v[] = {"verbose", "debug", "info", "warning", "error", "fatal"}; static constexpr unsigned n = 6; };
@@ -120,10 +137,13 @@ void parse()
 VERIF_HARNESS(h_enum_rt_test) { roundtrip<test_enum>(); }
 VERIF_HARNESS(h_enum_rt_colour) { roundtrip<colour>(); }
 VERIF_HARNESS(h_enum_rt_level) { roundtrip<fcppt::log::level>(); }
+VERIF_HARNESS(h_enum_rt_suffix) { roundtrip<suffix>(); }
+VERIF_HARNESS(h_enum_parse_suffix) { parse<suffix>(); }
 VERIF_HARNESS(h_enum_parse_test) { parse<test_enum>(); }
 VERIF_HARNESS(h_enum_parse_colour) { parse<colour>(); }
 VERIF_HARNESS(h_enum_parse_level) { parse<fcppt::log::level>(); }
-//@harness h_enum_rt_{E} for E in test,colour,level tier=quick loop=40
+//@harness h_enum_rt_{E} for E in test,colour,level,suffix tier=quick loop=40
+//@harness h_enum_parse_suffix param len=0..2 tier=quick loop=40
 //@harness h_enum_parse_test param len=0..6 tier=quick loop=40
 //@harness h_enum_parse_colour param len=0..4 tier=quick loop=40
 //@harness h_enum_parse_level param len=0..8 tier=quick loop=40
